@@ -27,8 +27,9 @@ class PROP(c02.PROP):
     id = "C01"
     theorems = ["C01_binop_is_reference", "C01_unop_is_reference", "C01_truthy_spec", "C01_equals_spec", "C01_binary_order",
                 "C01_logical_short_circuit", "C01_logical_otherwise_right", "C01_div_mod_zero_is_error",
-                "C01_output_only_grows_eval", "C01_output_only_grows_exec"]
-    prop_targets = ["theories/Props/C01.vo"]
+                "C01_output_only_grows_eval", "C01_output_only_grows_exec", "C01_fmod_exact", "C01_fmod_specials"]
+    audit_modules = ["C01", "C01b"]
+    prop_targets = ["theories/Props/C01.vo", "theories/Props/C01b.vo"]
     allowed_axioms = ()
     quick_n = 500
     weights = dict(trace=0.45, err=0.25, lists=0.1, calls=0.2, ctl=0.2)
